@@ -10,6 +10,21 @@ REPO = "/repo"
 
 
 FIRST_MISSED = {
+    "C11g": "C11-K4 the payout is skipped only for a closed total of exactly zero (ordering-domain walk)",
+    "C11h": "C11-K3 every index into the open-position list in close_position is the position(..) lookup result",
+    "C12i": "C12-L1 expand_flow's FLOWS.save is dominated by stored flow asset == offered asset, whatever the asset kind",
+    "C14i": "C14-S1 / C04-V1 the pending-fee deduction does not hang on one side of an asset-identity test",
+    "C17i": "C17-P5 the frontend helper's reply propagates a rejected deposit (C11-K5 caught it at first sight)",
+    "C03g": "C03-Y5 / C04-A5 the two sibling deposit-side solvers use the same constant iteration bound",
+    "C03h": "C03-Y3 rewritten: deposit_i handed to the mint helper is the amount found for pools[i] (pool order), not the caller's order",
+    "C05g": "C05-V8 operator tree of the minted shares: (amount * total_share) / (balance - pending fees - arrived deposit), product first",
+    "C06h": "C06-X3 each fee is booked as what it is (C07-F1's vault rule, filed under C06 too)",
+    "C07h": "C07-F6 every reader of pool balances subtracts the PENDING ledger (C04-V1 caught it at first sight)",
+    "C07i": "C07-F6 / C01-V1 the pending-fee deduction is reachable for cw20 and native pool assets alike",
+    "C08h": "C08-B3 the same-block merge reads UNBOND under the very key it saves to",
+    "C09h": "C09-D1 every Asset{amount: reward} (payout, claimed entry) carries the fee entry's own asset info",
+    "C09i": "C09-D1 each available / claimed update is dominated by `entry.info == fee.info`",
+    "C10h": "C10-Q3 the recorded take-rate amount is the fee itself, not the remainder computed from it",
     "C18e": "C18-amp the stored initial_amp is compute_amp_factor(): interpolation adds on the way up and subtracts on the way down (C04-A4 caught it at first sight)",
     "C19e": "C19-R7 the route-validating simulation visits every hop (no exit from the loop except the iterator running out or an error)",
     "C20e": "C20-E9 the epoch manager stores its start epoch only when genesis_epoch == start_epoch.start_time",
